@@ -112,9 +112,17 @@ def run_case(seed, tier, rec, st):
             eligible_root = False
         elif mode == "config":
             root_tag = tags.pop() if rng.random() < 0.3 else None
-            fam.exec_src("@dataclass\nclass R" + base + ":\n" + (f"    k = {root_tag!r}\n" if root_tag is not None else "") +
-                         "    f_R: int = 0\n    class Config(BaseConfig):\n"
-                         "        discriminator = Discriminator(field='k', include_subtypes=True)\n" + lazy)
+            if rng.random() < 0.25:
+                # the discriminator is declared by a shared Config base class; the root's own Config only derives from it
+                fam.exec_src("class TaggedConfig(BaseConfig):\n    discriminator = Discriminator(field='k', include_subtypes=True)\n"
+                             + ("class TaggedConfig2(TaggedConfig):\n    omit_none = True\n" if rng.random() < 0.5 else "TaggedConfig2 = TaggedConfig\n"))
+                fam.exec_src("@dataclass\nclass R" + base + ":\n" + (f"    k = {root_tag!r}\n" if root_tag is not None else "") +
+                             "    f_R: int = 0\n    class Config(TaggedConfig2):\n        sort_keys = True\n" + lazy)
+                rec.count("discriminator_inherited_from_config_base")
+            else:
+                fam.exec_src("@dataclass\nclass R" + base + ":\n" + (f"    k = {root_tag!r}\n" if root_tag is not None else "") +
+                             "    f_R: int = 0\n    class Config(BaseConfig):\n"
+                             "        discriminator = Discriminator(field='k', include_subtypes=True)\n" + lazy)
             classes["R"] = {"parent": None, "tag": root_tag, "root": "R"}
             order.append("R")
             roots = ["R"]
